@@ -12,6 +12,8 @@ package guard
 //@   requires typeis(actxMessage(ctx), "*vivid.OnKilled") ==> !nilptr(actxMessage(ctx)) && unboxed(actxMessage(ctx), "*vivid.OnKilled").Ref != nil &&
 //@            (typeis(unboxed(actxMessage(ctx), "*vivid.OnKilled").Ref, "*actor.Ref") ==> !nilptr(unboxed(actxMessage(ctx), "*vivid.OnKilled").Ref))
 //@   requires typeis(actxMessage(ctx), "ves.DeathLetterEvent") ==> unboxed(actxMessage(ctx), "ves.DeathLetterEvent").Envelope != nil
-//@   modifies gmap(published)
+// the root's own death notice arrives once: the closed-signal channel exists and has not been closed yet
+//@   requires typeis(actxMessage(ctx), "*vivid.OnKilled") ==> a.guardClosedSignal != nil && gcount(chclosed, a.guardClosedSignal) == 0
+//@   modifies gmap(published), gmap(chclosed)
 //@   ensures  typeis(actxMessage(ctx), "ves.DeathLetterEvent") ==> gcount(published, tagof("ves.DeathLetterEvent")) == old(gcount(published, tagof("ves.DeathLetterEvent"))) + 1
 //@   ensures  forall t mathint :: t != tagof("ves.DeathLetterEvent") || !typeis(actxMessage(ctx), "ves.DeathLetterEvent") ==> gcount(published, t) == old(gcount(published, t))
